@@ -101,6 +101,16 @@ type rtCtx struct {
 	mc     tmjson.MarshalCodec
 	caseID string
 	encs   [][]byte
+
+	// reuse: decode into the value the previous decode of that type left behind (one variable
+	// used across a receive loop) instead of into a zero value
+	reuse  bool
+	prevH  tmconsensus.Header
+	prevPH tmconsensus.ProposedHeader
+	prevCH tmconsensus.CommittedHeader
+	prevPV tmconsensus.PrevoteSparseProof
+	prevPC tmconsensus.PrecommitSparseProof
+	prevCM tmcodec.ConsensusMessage
 }
 
 // do runs marshal+unmarshal under Guard and reports marshal/unmarshal errors and panics.
@@ -147,6 +157,10 @@ func (c *rtCtx) judge(kind string, orig any, enc []byte, d diffs) {
 
 func (c *rtCtx) header(kind string, h tmconsensus.Header) {
 	var got tmconsensus.Header
+	if c.reuse {
+		got = c.prevH
+		defer func() { c.prevH = got }()
+	}
 	enc, ok := c.do(kind, dumpHeader(h),
 		func() ([]byte, error) { return c.mc.MarshalHeader(h) },
 		func(b []byte) error { return c.mc.UnmarshalHeader(b, &got) })
@@ -161,6 +175,10 @@ func (c *rtCtx) header(kind string, h tmconsensus.Header) {
 
 func (c *rtCtx) proposed(ph tmconsensus.ProposedHeader) {
 	var got tmconsensus.ProposedHeader
+	if c.reuse {
+		got = c.prevPH
+		defer func() { c.prevPH = got }()
+	}
 	enc, ok := c.do("ProposedHeader", dumpPH(ph),
 		func() ([]byte, error) { return c.mc.MarshalProposedHeader(ph) },
 		func(b []byte) error { return c.mc.UnmarshalProposedHeader(b, &got) })
@@ -174,6 +192,10 @@ func (c *rtCtx) proposed(ph tmconsensus.ProposedHeader) {
 
 func (c *rtCtx) committed(ch tmconsensus.CommittedHeader) {
 	var got tmconsensus.CommittedHeader
+	if c.reuse {
+		got = c.prevCH
+		defer func() { c.prevCH = got }()
+	}
 	dump := map[string]any{"Header": dumpHeader(ch.Header), "Proof": dumpCommitProof(ch.Proof)}
 	enc, ok := c.do("CommittedHeader", dump,
 		func() ([]byte, error) { return c.mc.MarshalCommittedHeader(ch) },
@@ -207,6 +229,10 @@ func cmpPrecommit(d *diffs, a, b tmconsensus.PrecommitSparseProof) {
 
 func (c *rtCtx) prevote(p tmconsensus.PrevoteSparseProof) {
 	var got tmconsensus.PrevoteSparseProof
+	if c.reuse {
+		got = c.prevPV
+		defer func() { c.prevPV = got }()
+	}
 	dump := dumpSparse(p.Height, p.Round, p.PubKeyHash, p.Proofs)
 	enc, ok := c.do("PrevoteProof", dump,
 		func() ([]byte, error) { return c.mc.MarshalPrevoteProof(p) },
@@ -221,6 +247,10 @@ func (c *rtCtx) prevote(p tmconsensus.PrevoteSparseProof) {
 
 func (c *rtCtx) precommit(p tmconsensus.PrecommitSparseProof) {
 	var got tmconsensus.PrecommitSparseProof
+	if c.reuse {
+		got = c.prevPC
+		defer func() { c.prevPC = got }()
+	}
 	dump := dumpSparse(p.Height, p.Round, p.PubKeyHash, p.Proofs)
 	enc, ok := c.do("PrecommitProof", dump,
 		func() ([]byte, error) { return c.mc.MarshalPrecommitProof(p) },
@@ -246,6 +276,10 @@ func (c *rtCtx) message(m tmcodec.ConsensusMessage) {
 		dump = dumpSparse(m.PrecommitProof.Height, m.PrecommitProof.Round, m.PrecommitProof.PubKeyHash, m.PrecommitProof.Proofs)
 	}
 	var got tmcodec.ConsensusMessage
+	if c.reuse {
+		got = c.prevCM
+		defer func() { c.prevCM = got }()
+	}
 	enc, ok := c.do(kind, dump,
 		func() ([]byte, error) { return c.mc.MarshalConsensusMessage(m) },
 		func(b []byte) error { return c.mc.UnmarshalConsensusMessage(b, &got) })
@@ -307,8 +341,29 @@ func TestVerif_C14_roundtrip(t *testing.T) {
 		pc2 := genPrecommit(rng)
 		c.message(tmcodec.ConsensusMessage{PrecommitProof: &pc2})
 		r.Eval(8)
+		want := 8
+		if i%2 == 1 {
+			// a second value of every type, decoded into the variable the first decode filled
+			// (one destination used across a receive loop)
+			c.reuse = true
+			c.prevH, c.prevPH, c.prevCH = h, ph, ch
+			c.prevPV, c.prevPC = pv, pc
+			c.prevCM = tmcodec.ConsensusMessage{PrevoteProof: &pv2}
+			c.caseID = fmt.Sprintf("roundtrip/%d/into-used-destination", i)
+			c.header("Header", genHeader(rng, 6))
+			c.proposed(genProposedHeader(rng, 6))
+			c.committed(genCommittedHeader(rng, 6))
+			c.prevote(genPrevote(rng))
+			c.precommit(genPrecommit(rng))
+			pc3 := genPrecommit(rng)
+			c.message(tmcodec.ConsensusMessage{PrecommitProof: &pc3})
+			pv3 := genPrevote(rng)
+			c.message(tmcodec.ConsensusMessage{PrevoteProof: &pv3})
+			r.Eval(7)
+			want = 15
+		}
 
-		if len(c.encs) == 8 {
+		if len(c.encs) == want {
 			hs := sha256.New()
 			for _, e := range c.encs {
 				hs.Write(e)
